@@ -115,6 +115,28 @@ def structure(o, seen=None):
     return (cn, id(o), extra, structure(o._inner, seen))
 
 
+def occurring_names(o, seen=None):
+    """the names of the Variable leaves below o (by walking the tree, not by reading _variable_names)"""
+    if seen is None:
+        seen = set()
+    out = set()
+    stack = [o]
+    while stack:
+        x = stack.pop()
+        if id(x) in seen:
+            continue
+        seen.add(id(x))
+        if x.__class__.__name__ == 'Variable':
+            out.add(x.name)
+        elif hasattr(x, '_inners'):
+            stack.extend(x._inners)
+        elif hasattr(x, '_left'):
+            stack.extend([x._left, x._right])
+        elif hasattr(x, '_inner'):
+            stack.append(x._inner)
+    return out
+
+
 class World:
     def __init__(self, h):
         self.pool = build_pool(h['pool'])
@@ -242,6 +264,13 @@ def run_history(h, fresh_oracle=True):
                 final.append({'pool': j, 'used': repr(a)[:200], 'fresh': repr(c)[:200]})
         except Exception as ex:  # noqa: BLE001
             final.append({'pool': j, 'error': type(ex).__name__})
+    for j, a in enumerate(w.pool):
+        try:
+            occurring = sorted(occurring_names(a))
+            if sorted(a._variable_names) != occurring:
+                final.append({'pool': j, 'variable_names': sorted(a._variable_names), 'occurring': occurring})
+        except Exception as ex:  # noqa: BLE001
+            final.append({'pool': j, 'error': 'variable names: ' + type(ex).__name__})
     for j, (a, c) in enumerate(zip(w.points, w3.points)):
         if not (a == c) or repr(a) != repr(c):
             final.append({'point': j, 'used': repr(a), 'fresh': repr(c)})
